@@ -1,51 +1,101 @@
 import Model.C20.Lifecycle
-/-! C20 helper lemmas: the nonce consumed by `musig2.sign`. -/
+/-! C20 helper lemmas: the nonce consumed by `musig2.sign`, in every spelling a caller can hold it in. -/
 namespace Btc.C20
 open Btc
 
 theorem spent_zeroPrefix (bs : Bytes) : Spent (zeroPrefix 64 bs) := by
   simp [Spent, zeroPrefix]
 
-theorem ofBE_replicate_zero (n : Nat) : ofBE (List.replicate n 0) = 0 := by
-  have h : ∀ (n acc : Nat), (List.replicate n (0 : UInt8)).foldl (fun acc b => acc * 256 + b.toNat) acc
-      = acc * 256 ^ n := by
-    intro n
-    induction n with
-    | zero => intro acc; simp
-    | succ k ih => intro acc; simp [List.replicate_succ, ih, Nat.pow_succ, Nat.mul_assoc, Nat.mul_comm 256]
-  simp [ofBE, h]
-
 theorem spent_k1 {bs : Bytes} (h : Spent bs) : ofBE (bs.take 32) = 0 := by
   have : bs.take 32 = (bs.take 64).take 32 := by simp [List.take_take]
   rw [this, h]
   decide
 
-/-- the shape of every outcome of `musig2.sign` as the current source orders its statements:
-    either the session did not assemble and nothing was touched, or the first 64 bytes are gone. -/
+theorem spent_length {bs : Bytes} (h : Spent bs) : 64 ≤ bs.length := by
+  have := congrArg List.length h
+  simp at this
+  omega
+
+/-- The shape of every outcome of `musig2.sign` as the current source orders its statements, whatever the
+    spelling: either the call raised and the caller's object is as it was, or the first 64 bytes are gone —
+    and only the second can carry a signature. -/
+theorem signK_cases (kind : NonceKind) (x : SignArgs) (nonce : Bytes) :
+    ((Nonce.signK kind x nonce).1 = nonce ∧ ∃ e, (Nonce.signK kind x nonce).2 = .error e) ∨
+    ((Nonce.signK kind x nonce).1 = zeroPrefix 64 nonce ∧ x.ctxOk = true ∧
+      (kind = .buf ∨ (kind = .view ∧ 64 ≤ nonce.length))) := by
+  cases hc : x.ctxOk
+  · left
+    simp [Nonce.signK, Gen.Lifecycle.musigSign, runSign, hc]
+  · cases kind with
+    | text => left; simp [Nonce.signK, Gen.Lifecycle.musigSign, runSign, hc]
+    | frozen => left; simp [Nonce.signK, Gen.Lifecycle.musigSign, runSign, hc]
+    | buf =>
+      right
+      refine ⟨?_, rfl, Or.inl rfl⟩
+      simp only [Nonce.signK, Gen.Lifecycle.musigSign, runSign, hc, if_true]
+      repeat' split
+      all_goals first | rfl | (exfalso; simp_all)
+    | view =>
+      by_cases hl : 64 ≤ nonce.length
+      · right
+        refine ⟨?_, rfl, Or.inr ⟨rfl, hl⟩⟩
+        simp only [Nonce.signK, Gen.Lifecycle.musigSign, runSign, hc, if_true, hl]
+        repeat' split
+        all_goals first | rfl | (exfalso; simp_all)
+      · left
+        simp [Nonce.signK, Gen.Lifecycle.musigSign, runSign, hc, hl]
+
+/-- a call that returned a signature has overwritten the caller's object. -/
+theorem signK_sig_spends (kind : NonceKind) (x : SignArgs) (nonce : Bytes) (s : Bytes)
+    (h : (Nonce.signK kind x nonce).2 = .ok s) : Spent (Nonce.signK kind x nonce).1 := by
+  rcases signK_cases kind x nonce with ⟨_, e, he⟩ | ⟨h2, _, _⟩
+  · rw [he] at h; cases h
+  · rw [h2]; exact spent_zeroPrefix nonce
+
+/-- a spent nonce is refused, in every spelling. -/
+theorem signK_spent_errs (kind : NonceKind) (x : SignArgs) (nonce : Bytes) (h : Spent nonce) :
+    ∃ e, (Nonce.signK kind x nonce).2 = .error e := by
+  cases hc : x.ctxOk
+  · exact ⟨x.ctxErr, by simp [Nonce.signK, Gen.Lifecycle.musigSign, runSign, hc]⟩
+  · have hk := spent_k1 h
+    have hl := spent_length h
+    cases kind with
+    | buf => exact ⟨.value, by simp [Nonce.signK, Gen.Lifecycle.musigSign, runSign, hc, hk]⟩
+    | view => exact ⟨.value, by simp [Nonce.signK, Gen.Lifecycle.musigSign, runSign, hc, hk, hl]⟩
+    | frozen => exact ⟨.foreign, by simp [Nonce.signK, Gen.Lifecycle.musigSign, runSign, hc]⟩
+    | text => exact ⟨.foreign, by simp [Nonce.signK, Gen.Lifecycle.musigSign, runSign, hc]⟩
+
+theorem signK_spent_stays (kind : NonceKind) (x : SignArgs) (nonce : Bytes) (h : Spent nonce) :
+    Spent (Nonce.signK kind x nonce).1 := by
+  rcases signK_cases kind x nonce with ⟨h2, _⟩ | ⟨h2, _⟩
+  · rw [h2]; exact h
+  · rw [h2]; exact spent_zeroPrefix nonce
+
+/-- an immutable spelling never yields a signature and is never changed. -/
+theorem signK_immutable (kind : NonceKind) (hk : kind = .frozen ∨ kind = .text) (x : SignArgs) (nonce : Bytes) :
+    (Nonce.signK kind x nonce).1 = nonce ∧ ∃ e, (Nonce.signK kind x nonce).2 = .error e := by
+  rcases signK_cases kind x nonce with h | ⟨_, _, h3⟩
+  · exact h
+  · rcases hk with rfl | rfl <;> rcases h3 with h3 | ⟨h3, _⟩ <;> cases h3
+
+/-! the `bytearray` case, as the earlier lemmas state it -/
+
 theorem sign_cases (x : SignArgs) (nonce : Bytes) :
     (x.ctxOk = false ∧ Nonce.sign x nonce = (nonce, .error x.ctxErr)) ∨
     (x.ctxOk = true ∧ (Nonce.sign x nonce).1 = zeroPrefix 64 nonce) := by
   cases hc : x.ctxOk
   · left
-    simp [Nonce.sign, Gen.Lifecycle.musigSign, runSign, hc]
+    simp [Nonce.sign, Nonce.signK, Gen.Lifecycle.musigSign, runSign, hc]
   · right
     refine ⟨rfl, ?_⟩
-    simp only [Nonce.sign, Gen.Lifecycle.musigSign, runSign, hc, if_true]
+    simp only [Nonce.sign, Nonce.signK, Gen.Lifecycle.musigSign, runSign, hc, if_true]
     repeat' split
-    all_goals rfl
+    all_goals first | rfl | (exfalso; simp_all)
 
-/-- a spent nonce is refused (or the session is, before the nonce is looked at). -/
 theorem sign_spent_errs (x : SignArgs) (nonce : Bytes) (h : Spent nonce) :
-    ∃ e, (Nonce.sign x nonce).2 = .error e := by
-  cases hc : x.ctxOk
-  · exact ⟨x.ctxErr, by simp [Nonce.sign, Gen.Lifecycle.musigSign, runSign, hc]⟩
-  · have hk := spent_k1 h
-    exact ⟨.value, by simp [Nonce.sign, Gen.Lifecycle.musigSign, runSign, hc, hk]⟩
+    ∃ e, (Nonce.sign x nonce).2 = .error e := signK_spent_errs .buf x nonce h
 
 theorem sign_spent_stays (x : SignArgs) (nonce : Bytes) (h : Spent nonce) :
-    Spent (Nonce.sign x nonce).1 := by
-  rcases sign_cases x nonce with ⟨_, h2⟩ | ⟨_, h2⟩
-  · rw [h2]; exact h
-  · rw [h2]; exact spent_zeroPrefix nonce
+    Spent (Nonce.sign x nonce).1 := signK_spent_stays .buf x nonce h
 
 end Btc.C20
